@@ -119,6 +119,13 @@ STRUCTURED = [
     ("global.cc-number", "declare cc 200 void @f()\n", ["cc 200"]),
     ("ifunc", "@i = ifunc void (), void ()* ()* @r\n\ndeclare void ()* @r()\n", ["ifunc void ()"]),
     ("alias.linkage", "@g = global i32 0\n\n@a = weak alias i32, i32* @g\n", ["weak alias"]),
+    ("comdat.implicit-unnamed-global", "$\"0\" = comdat any\n\n@0 = global i32 0, comdat($\"0\")\n", ["= comdat any", "@0 = global i32 0, comdat"]),
+    ("comdat.implicit-unnamed-second", "$\"1\" = comdat any\n\n@0 = global i32 0\n@1 = global i32 0, comdat($\"1\")\n", ["@1 = global i32 0, comdat"]),
+    ("comdat.implicit-named", "$g = comdat any\n\n@g = global i32 0, comdat\n", ["@g = global i32 0, comdat"]),
+    ("comdat.implicit-func", "$f = comdat any\n\ndefine void @f() comdat {\n\tret void\n}\n", ["define void @f() comdat {"]),
+    ("comdat.explicit-other", "$c = comdat any\n\n@g = global i32 0, comdat($c)\n", ["comdat($c)"]),
+    ("names.numeric-quoted", "@\"0\" = global i32 5\n@p = global i32* @\"0\"\n\ndefine void @f(i32 %\"2\") {\n\"1\":\n\tbr label %\"3\"\n\n\"3\":\n\t%\"0\" = load i32, i32* @\"0\"\n\t%0 = add i32 %\"0\", %\"2\"\n\tbr label %\"1\"\n}\n",
+     ["@\"0\" = global i32 5", "i32* @\"0\"", "\"1\":", "br label %\"3\"", "%\"0\" = load i32, i32* @\"0\"", "%0 = add i32 %\"0\", %\"2\""]),
     ("module.asm", "module asm \"nop\"\n", ["module asm \"nop\""]),
     ("datalayout", "target datalayout = \"e-m:e\"\n", ["target datalayout = \"e-m:e\""]),
     ("type.packed", "%T = type <{ i8, i32 }>\n", ["<{ i8, i32 }>"]),
@@ -217,6 +224,11 @@ TERMS = [
 
 def inst_entries():
     out = []
+    import itertools
+    for se, al, intel, unwind in itertools.product(["", " sideeffect"], ["", " alignstack"], ["", " inteldialect"], ["", " unwind"]):
+        flags = se + al + intel + unwind
+        inst = 'call void asm%s "nop", "~{memory}"()' % flags
+        out.append(("inst.inline-asm-flags%s" % flags.replace(" ", "-"), "define void @f() {\n\t%s\n\tret void\n}\n" % inst, [inst]))
     for name, param, inst in INSTS:
         text = "declare i32 @g(i32 %%0)\n\ndeclare float @h(float %%0)\n\ndefine void @f(%s) {\n\t%s\n\tret void\n}\n" % (param, inst)
         out.append(("inst." + name, text, [inst]))
@@ -268,6 +280,8 @@ DI = [(n, "!0 = " + t + "\n" + FOOT, fr) for n, t, fr in DI_RAW] + [
     (n + ".inline", "!0 = !{" + t + "}\n" + FOOT, fr + ["!{" + t.split("(")[0] + "("]) for n, t, fr in DI_RAW if not t.startswith("distinct ")] + [
     ("DICompileUnit.splitDebugInlining-false", "!0 = distinct !DICompileUnit(language: DW_LANG_C99, file: !1, splitDebugInlining: false)\n!1 = !DIFile(filename: \"a\", directory: \"b\")\n", ["splitDebugInlining: false"]),
     ("md.value-in-call", "declare void @llvm.dbg.value(metadata %0, metadata %1, metadata %2)\n\ndefine void @f(i32 %a) {\n\tcall void @llvm.dbg.value(metadata i32 %a, metadata !0, metadata !DIExpression(DW_OP_plus_uconst, 3))\n\tret void\n}\n\n!0 = !{}\n", ["metadata i32 %a", "DW_OP_plus_uconst, 3"]),
+    ("DIGlobalVariableExpression.numbered-expr", "!0 = !DIGlobalVariableExpression(var: !96, expr: !97)\n" + FOOT + "!97 = !DIExpression(DW_OP_deref)\n", ["var: !96", "expr: !97", "!97 = !DIExpression(DW_OP_deref)"]),
+    ("md.numbered-diexpression-in-tuple", "!0 = !{!97, !97}\n!97 = !DIExpression(DW_OP_plus_uconst, 3)\n", ["!0 = !{!97, !97}"]),
     ("md.attachments-multi", "@g = global i32 0, !a !0, !b !1\n\n!0 = !{}\n!1 = !{}\n", ["!a !0", "!b !1"]),
     ("uselistorder", "@g = global i32 0\n@p = global i32* @g\n@q = global i32* @g\n\nuselistorder i32* @g, { 1, 0 }\n", ["uselistorder i32* @g, { 1, 0 }"]),
     ("uselistorder_bb", "define void @f() {\nb:\n\tbr label %b\n}\n\nuselistorder_bb @f, %b, { 1, 0 }\n", ["uselistorder_bb @f, %b, { 1, 0 }"]),
